@@ -425,9 +425,89 @@ func c03Expect(ops []rOp, method string, segs []string) (string, map[string]stri
 	return best.ID, bestBind
 }
 
+// c03CombineCorr: codegen.CombineOperationParameters vs Model/Combine.lean on seeded declaration lists (few names and
+// locations, so that overrides and repeats are frequent); the statement on the result: the operation's declaration of a
+// (location, name) is the one in the list.
+func c03CombineCorr(ctx *Ctx, n int) error {
+	locs := []string{"path", "query", "header", "cookie"}
+	names := []string{"id", "limit", "X-A"}
+	for i := 0; i < n; i++ {
+		r := ctx.Rng.Fork()
+		mk := func(k int, base int) ([]codegen.ParameterDefinition, []interface{}) {
+			var ps []codegen.ParameterDefinition
+			var enc []interface{}
+			for j := 0; j < k; j++ {
+				li, ni := r.Intn(len(locs)), r.Intn(len(names))
+				tag := base + j
+				// the tag rides in the Go name of the parameter definition's spec: use ParamName + a marker kept aside
+				ps = append(ps, codegen.ParameterDefinition{ParamName: names[ni], In: locs[li], Required: tag%2 == 0, Spec: &openapi3.Parameter{Description: fmt.Sprint(tag)}})
+				row := []int{li, tag}
+				row = append(row, cps(names[ni])...)
+				enc = append(enc, row)
+			}
+			return ps, enc
+		}
+		g, ge := mk(r.Intn(4), 100)
+		l, le := mk(r.Intn(4), 200)
+		got, err := codegen.CombineOperationParameters(g, l)
+		var m struct {
+			Ok    []int  `json:"ok"`
+			Error string `json:"error"`
+		}
+		if ge == nil {
+			ge = []interface{}{}
+		}
+		if le == nil {
+			le = []interface{}{}
+		}
+		if e := ctx.Model(J{"fn": "combineParams", "global": ge, "local": le}, &m); e != nil {
+			return e
+		}
+		c := J{"path-item": ge, "operation": le}
+		ctx.Res.Eval(c, len(g)+len(l) > 0)
+		ctx.Res.Count("corr:combine")
+		implS, modelS := "error", "error"
+		if err == nil {
+			var tags []string
+			for _, p := range got {
+				tags = append(tags, p.Spec.Description)
+			}
+			implS = strings.Join(tags, ",")
+		}
+		if m.Error == "" {
+			var tags []string
+			for _, t := range m.Ok {
+				tags = append(tags, fmt.Sprint(t))
+			}
+			modelS = strings.Join(tags, ",")
+		}
+		if implS != modelS {
+			ctx.Res.Disagree("CORR CombineOperationParameters vs Combine.combine", c, modelS, implS)
+		}
+		if err == nil {
+			// the statement: for every (location, name) the operation declares, the combined list holds that declaration
+			for _, p := range l {
+				found := false
+				for _, q := range got {
+					if q.In == p.In && q.ParamName == p.ParamName {
+						found = q.Spec.Description == p.Spec.Description
+					}
+				}
+				if !found {
+					ctx.Res.Violate("combine:operation-declaration-lost", fmt.Sprintf("the operation declares %s/%s, the combined list holds another declaration of it (or none)", p.In, p.ParamName), J{"case": c})
+				}
+			}
+		}
+	}
+	return nil
+}
+
 func runC03(ctx *Ctx) error {
-	ctx.Res.Rule = "CORR: every string over {'{','}','*','.',';','?','a','/'} up to length 5 (thorough 7) and seeded templates through OrderedParamsFromUri / the seven SwaggerUriTo*Uri / ReplacePathParamsWithStr vs the Lean scanner; SortParamsByPath on shuffled, missing, extra declarations. RUN: seeded documents (4-12 path templates, 0-4 variables, static/templated siblings, shared prefixes, nine methods, path-level/operation-level declarations in every order) x requests (matching with plain/escaped/non-ASCII values, wrong method, extra/missing segment, unknown static) x 7 frameworks x with/without base URL; observed handler and arguments vs the statement and vs Lean route; non-trivial = RUN requests and templates containing a brace"
+	ctx.Res.Rule = "CORR: every string over {'{','}','*','.',';','?','a','/'} up to length 5 (thorough 7) and seeded templates through OrderedParamsFromUri / the seven SwaggerUriTo*Uri / ReplacePathParamsWithStr vs the Lean scanner; SortParamsByPath on shuffled, missing, extra declarations; CombineOperationParameters on seeded path-item / operation declaration lists vs Combine.combine. RUN: seeded documents (4-12 path templates, 0-4 variables, static/templated siblings, shared prefixes, nine methods, path-level/operation-level declarations in every order) x requests (matching with plain/escaped/non-ASCII values, wrong method, extra/missing segment, unknown static) x 7 frameworks x with/without base URL; observed handler and arguments vs the statement and vs Lean route; non-trivial = RUN requests and templates containing a brace"
 	if err := c03CorrTemplates(ctx); err != nil {
+		return err
+	}
+	if err := c03CombineCorr(ctx, ctx.N(2000, 30000)); err != nil {
 		return err
 	}
 	kit, err := NewRunKit(ctx.Work)
